@@ -742,7 +742,7 @@ def check(prog, run):
         for t in tries:
             if any(needle in sym.show(t["raw"]) for _, needle in wantt):
                 continue
-            hr = common.helper_rejections(u, t["src"])
+            hr = common.helper_rejections(u, t["src"]) or common.inline_conversion_rejection(u, t["src"], t["raw"])
             if not hr:
                 continue
             at = t["src_call_bb"] if t["src_call_bb"] is not None else t["bb"]
@@ -845,6 +845,9 @@ def check(prog, run):
                     ve_ = sym.expr_rv(ob_, node_["rv"])
                     params_ = frozenset(x_[2] for x_ in sym.sources(ve_) if x_[0] == "arg")
                     sg_ = tuple(signature(d_, t_) for (s__, d_, t_) in guards.guards_of(ob_, sbb_) if "state:" + path_[0] in signature(d_, t_))
+                    if ve_[0] == "call" and ve_[1].split("::")[-1] == "or" and "Option" in ve_[1] and len(ve_[2]) == 2 and ve_[2][0][0] == "load" and ve_[2][0][1] == "arg1." + path_[0]:
+                        # `f = f.or(v)` is `if f.is_none() { f = v }`
+                        ve_, sg_ = ve_[2][1], sg_ + ("is_none(state:%s)" % path_[0],)
                     desc.setdefault(path_[0], {}).setdefault(o_, set()).add((sg_, sym.show(ve_)[:200], params_))
             CUR_BODY[:] = []
         for f_, per in sorted(desc.items()):
